@@ -193,6 +193,10 @@ class CallMixin(object):
       node = mi.find('.'.join(parts[i:]))
       if node is None:
         raise Unsupported('function %s not found in %s' % (q, modname))
+      for d in getattr(node, 'decorator_list', []):
+        txt = ast.unparse(d)
+        if txt not in ('property', 'staticmethod', 'classmethod', 'abc.abstractmethod') and not txt.startswith('functools.wraps('):
+          raise Unsupported('decorator @%s on inlined function %s is not modelled' % (txt, q))
       return VFunc(node, {}, mi, q)
     raise Unsupported('cannot locate %s' % q)
 
